@@ -474,6 +474,30 @@ theorem rootOf_mem {f : Forest N G} (a : N) : rootOf f a ∈ anc f a := by
 section roots
 variable [Mul G] [One G] [Inv G] [LawfulGroup G]
 
+theorem pathTo_product {f : Forest N G} {rank : N → Nat} (h : WFr f rank) (a b : N) :
+    (pathTo f a b).bind (pathProduct f) =
+      if rootOf f a = rootOf f b
+      then some ((world f f.parents.length a)⁻¹ * world f f.parents.length b) else none := by
+  unfold pathTo
+  simp only
+  cases hf : (anc f a).find? (fun x => (anc f b).contains x) with
+  | none =>
+    simp only [anc] at hf
+    simp only [Option.bind_none]
+    rw [if_neg]
+    intro hr
+    rw [List.find?_eq_none] at hf
+    have := hf _ (rootOf_mem a)
+    rw [hr] at this
+    exact this (by simpa using rootOf_mem (f := f) b)
+  | some link =>
+    have ha := List.mem_of_find?_eq_some hf
+    have hb : link ∈ anc f b := by simpa using List.find?_some hf
+    simp only [anc] at hf
+    simp only [Option.bind_some]
+    rw [if_pos (rootOf_eq_of_common h.acyclic ha hb)]
+    exact pathProduct_updown h ha hb
+
 theorem getRaw_spec {f : Forest N G} {rank : N → Nat} (h : WFr f rank) (a b : N) :
     getRaw f a b =
       if rootOf f a = rootOf f b
@@ -492,42 +516,62 @@ theorem getRaw_spec {f : Forest N G} {rank : N → Nat} (h : WFr f rank) (a b : 
           (by rw [anc_step h.acyclic hp]; exact List.mem_cons_of_mem _ (self_mem_anc f a))
       simp only [hr, if_true]
       rw [world_edge h hm, g_inv_mul_mul]
-    | none =>
-      simp only
-      unfold pathTo
-      simp only
-      cases hf : (anc f a).find? (fun x => (anc f b).contains x) with
-      | none =>
-        simp only [anc] at hf
-        simp only [Option.bind_none]
-        rw [if_neg]
-        intro hr
-        rw [List.find?_eq_none] at hf
-        have := hf _ (rootOf_mem a)
-        rw [hr] at this
-        exact this (by simpa using rootOf_mem (f := f) b)
-      | some link =>
-        have ha := List.mem_of_find?_eq_some hf
-        have hb : link ∈ anc f b := by simpa using List.find?_some hf
-        simp only [anc] at hf
-        simp only [Option.bind_some]
-        rw [if_pos (rootOf_eq_of_common h.acyclic ha hb)]
-        exact pathProduct_updown h ha hb
+    | none => exact pathTo_product h a b
+
+/-- in a well-formed forest a cached path for `(b, a)`, reversed, resolves `(a, b)` -/
+theorem pathProduct_reverse_pathTo {f : Forest N G} {rank : N → Nat} (h : WFr f rank) (a b : N)
+    {p : List N} (hp : pathTo f b a = some p) :
+    pathProduct f p.reverse = (pathTo f a b).bind (pathProduct f) := by
+  unfold pathTo at hp
+  simp only at hp
+  cases hf : (anc f b).find? (fun x => (anc f a).contains x) with
+  | none => simp only [anc] at hf; rw [hf] at hp; simp at hp
+  | some link =>
+    have hb := List.mem_of_find?_eq_some hf
+    have ha : link ∈ anc f a := by simpa using List.find?_some hf
+    simp only [anc] at hf
+    rw [hf] at hp
+    simp only [Option.some.injEq] at hp
+    subst hp
+    rw [pathTo_product h a b, if_pos (rootOf_eq_of_common h.acyclic ha hb)]
+    have := pathProduct_updown h ha hb
+    simpa [List.append_assoc] using this
 
 end roots
 
 /-! ### well-formedness is preserved -/
 
+/-- the structural part of well-formedness (everything but acyclicity) -/
+structure WFs (f : Forest N G) : Prop where
+  parents_nodup : (f.parents.map (·.1)).Nodup
+  edges_nodup : (f.edges.map (·.1)).Nodup
+  consistent : ∀ u v, (v, u) ∈ f.parents ↔ ∃ g, ((u, v), g) ∈ f.edges
+
+omit [DecidableEq N] in
+theorem WFr.toWFs {f : Forest N G} {rank : N → Nat} (h : WFr f rank) : WFs f :=
+  ⟨h.parents_nodup, h.edges_nodup, h.consistent⟩
+
+omit [DecidableEq N] in
+theorem wfs_empty : WFs (Forest.empty : Forest N G) :=
+  ⟨by simp [Forest.empty], by simp [Forest.empty], by simp [Forest.empty]⟩
+
 omit [DecidableEq N] in
 theorem wfr_empty : WFr (Forest.empty : Forest N G) (fun _ => 0) :=
-  ⟨by simp [Forest.empty], by simp [Forest.empty], by simp [Forest.empty], by simp [Forest.empty]⟩
+  ⟨wfs_empty.1, wfs_empty.2, wfs_empty.3, by simp [Forest.empty]⟩
 
-theorem wfr_removeNode {f : Forest N G} {rank : N → Nat} (h : WFr f rank) (u : N) :
-    WFr (removeNode f u) rank := by
+theorem removeNode_parents_subset (f : Forest N G) (u : N) :
+    ∀ p ∈ (removeNode f u).parents, p ∈ f.parents := by
+  intro p hp
+  unfold removeNode at hp
+  split at hp
+  · exact hp
+  · exact (List.mem_filter.mp hp).1
+
+theorem wfs_removeNode {f : Forest N G} (h : WFs f) (u : N) : WFs (removeNode f u) := by
   unfold removeNode
   split
   · exact h
-  · refine ⟨?_, ?_, ?_, ?_⟩
+  · refine ⟨?_, ?_, ?_⟩
     · exact List.Nodup.sublist (List.Sublist.map _ List.filter_sublist) h.parents_nodup
     · exact List.Nodup.sublist (List.Sublist.map _ List.filter_sublist) h.edges_nodup
     · intro x y
@@ -538,8 +582,11 @@ theorem wfr_removeNode {f : Forest N G} {rank : N → Nat} (h : WFr f rank) (u :
         exact ⟨g, hg, hx, hy⟩
       · rintro ⟨g, hg, hx, hy⟩
         exact ⟨(h.consistent x y).mpr ⟨g, hg⟩, hy, hx⟩
-    · intro p hp
-      exact h.acyclic p (List.mem_filter.mp hp).1
+
+theorem wfr_removeNode {f : Forest N G} {rank : N → Nat} (h : WFr f rank) (u : N) :
+    WFr (removeNode f u) rank :=
+  have hs := wfs_removeNode h.toWFs u
+  ⟨hs.1, hs.2, hs.3, fun p hp => h.acyclic p (removeNode_parents_subset f u p hp)⟩
 
 /-- the edge list of `addEdge` before the new edge is inserted -/
 def addEdgeE (f : Forest N G) (u v : N) : List ((N × N) × G) :=
@@ -570,7 +617,7 @@ theorem addEdgeE_mem_of_ne (f : Forest N G) (u v : N) {x y : N} {g' : G} (hy : y
     · rfl
   · rfl
 
-theorem addEdgeE_child {f : Forest N G} {rank : N → Nat} (h : WFr f rank) (u v : N) {x : N} {g' : G}
+theorem addEdgeE_child {f : Forest N G} (h : WFs f) (u v : N) {x : N} {g' : G}
     (hm : ((x, v), g') ∈ addEdgeE f u v) : x = u := by
   have hm' := (addEdgeE_sublist f u v).subset hm
   have hp := parentOf_of_mem h.parents_nodup ((h.consistent x v).mpr ⟨g', hm'⟩)
@@ -582,12 +629,9 @@ theorem addEdgeE_child {f : Forest N G} {rank : N → Nat} (h : WFr f rank) (u v
   · rw [if_pos hxu] at hm
     simp [List.mem_filter] at hm
 
-theorem wfr_addEdge {f : Forest N G} {rank : N → Nat} (h : WFr f rank) (u v : N) (g : G)
-    (hc : v ∉ anc f u) :
-    WFr (addEdge f u v g)
-      (fun x => rank x + if (anc f x).contains v then rank u + 1 else 0) := by
+theorem wfs_addEdge {f : Forest N G} (h : WFs f) (u v : N) (g : G) : WFs (addEdge f u v g) := by
   rw [addEdge_eq]
-  refine ⟨?_, ?_, ?_, ?_⟩
+  refine ⟨?_, ?_, ?_⟩
   · simp only [List.map_cons, List.nodup_cons]
     refine ⟨?_, List.Nodup.sublist (List.Sublist.map _ List.filter_sublist) h.parents_nodup⟩
     simp [List.mem_map, List.mem_filter]
@@ -608,24 +652,32 @@ theorem wfr_addEdge {f : Forest N G} {rank : N → Nat} (h : WFr f rank) (u v : 
         · subst hy
           exact absurd ⟨addEdgeE_child h u y hm, rfl⟩ hne
         · exact Or.inr ⟨(h.consistent x y).mpr ⟨g', (addEdgeE_mem_of_ne f u v hy).mp hm⟩, hy⟩
-  · intro p hp
-    rcases List.mem_cons.mp hp with rfl | hp
-    · have h1 : (anc f u).contains v = false := by simpa using hc
-      have h2 : (anc f v).contains v = true := by simpa using self_mem_anc f v
-      simp only [h1, h2, if_true]
-      simp
-      omega
-    · obtain ⟨hp, hne⟩ := List.mem_filter.mp hp
-      obtain ⟨c, q⟩ := p
-      simp only [bne_iff_ne, ne_eq] at hne
-      have hpar := parentOf_of_mem h.parents_nodup hp
-      have hlt := h.acyclic _ hp
-      simp only at hlt ⊢
-      rw [anc_step h.acyclic hpar]
-      have : (c :: anc f q).contains v = (anc f q).contains v := by
-        simp [Ne.symm hne]
-      rw [this]
-      omega
+
+theorem wfr_addEdge {f : Forest N G} {rank : N → Nat} (h : WFr f rank) (u v : N) (g : G)
+    (hc : v ∉ anc f u) :
+    WFr (addEdge f u v g)
+      (fun x => rank x + if (anc f x).contains v then rank u + 1 else 0) := by
+  have hs := wfs_addEdge h.toWFs u v g
+  refine ⟨hs.1, hs.2, hs.3, ?_⟩
+  rw [addEdge_eq]
+  intro p hp
+  rcases List.mem_cons.mp hp with rfl | hp
+  · have h1 : (anc f u).contains v = false := by simpa using hc
+    have h2 : (anc f v).contains v = true := by simpa using self_mem_anc f v
+    simp only [h1, h2, if_true]
+    simp
+    omega
+  · obtain ⟨hp, hne⟩ := List.mem_filter.mp hp
+    obtain ⟨c, q⟩ := p
+    simp only [bne_iff_ne, ne_eq] at hne
+    have hpar := parentOf_of_mem h.parents_nodup hp
+    have hlt := h.acyclic _ hp
+    simp only at hlt ⊢
+    rw [anc_step h.acyclic hpar]
+    have : (c :: anc f q).contains v = (anc f q).contains v := by
+      simp [Ne.symm hne]
+    rw [this]
+    omega
 
 /-! ### removal disconnects, updates are visible -/
 
